@@ -565,7 +565,7 @@ pub mod state {
     //@       || (final(self).w() == fresh_wview() && final(self).wsrc() == (WSrc { path: path_with_extension(old(self).path(), "ShortLivingTempFileForReOpen"@), flags: State::reopen_flags(), buffered: None }))
     //@   canary
     //@ fn src/writers/file_log_writer/state.rs impl State / fn shutdown
-    //@   props C04
+    //@   props C04,C15
     //@   ens[State::shutdown.post.frame] final(self).shutdown_frame(old(self))
     //@   ens[State::shutdown.post.written] old(self).active() ==> final(self).active() && final(self).w().written == old(self).w().written && final(self).w().flushed >= old(self).w().flushed
     //@   ens[State::shutdown.post.flush_called] old(self).active() ==> final(self).w().flush_calls == old(self).w().flush_calls + 1
@@ -664,7 +664,7 @@ pub mod state {
 
     //@ fn src/writers/file_log_writer/state.rs impl State / fn flush
     //@   ret r
-    //@   props C04
+    //@   props C04,C15
     //@   ens[flush.post.frame] final(self).same_but_writer_view(old(self))
     //@   ens[flush.post.written] old(self).active() ==> final(self).w().written == old(self).w().written
     //@   ens[flush.post.flushed] old(self).active() && r is Ok ==> final(self).w().flushed == final(self).w().written.len()
